@@ -291,7 +291,7 @@ var jrn3Exceptions = map[string]string{
 // error (the command is in the log, so it WILL take effect on restart even though the caller was told
 // it failed), unless the returned error is the journal write's own error.
 func ruleJRN3(w *World, r *Report) {
-	r.Doc("JRN-3", "in every journaling engine operation no path returns a non-nil error after a successful journal write (a rejected request must not be in the log)", 12)
+	r.Doc("JRN-3", "in every journaling engine operation no path returns a non-nil error after a successful journal write (a rejected request must not be in the log)", 9)
 	jw := w.journalObj()
 	flush := w.FuncObj("pkg/persistence", "LazyAOFWriter.Flush")
 	if jw == nil {
@@ -763,5 +763,69 @@ func ruleEFFcomposite(w *World, r *Report) {
 	r.Count("composite_operations", n)
 	if n == 0 {
 		r.Ok("EFF-composite", "no-composite-operation", "", "no engine function strings several journaling operations together")
+	}
+}
+
+// ---------- EFF-readd: nobody "updates" a record by adding it again ----------
+
+// ruleEFFreadd: VAdd rejects an id that exists — after it has journaled the command (the known JRN-3 finding). A
+// function that has just fetched a record with VGet and then calls VAdd with the same index and id is therefore always
+// rejected, and the rejected VADD still replaces the record at the next restart. Updates go through VSetMetadata, or
+// through VDelete followed by VAdd.
+func ruleEFFreadd(w *World, r *Report) {
+	r.Doc("EFF-readd", "no function calls Engine.VAdd with the index and id of a record it has just fetched successfully with Engine.VGet, unless a VDelete of that id lies in between: such a call is always rejected as a duplicate, and its journaled record takes effect at the next restart", 1)
+	vadd := w.FuncObj("pkg/engine", "Engine.VAdd")
+	vget := w.FuncObj("pkg/engine", "Engine.VGet")
+	vdel := w.FuncObj("pkg/engine", "Engine.VDelete")
+	if vadd == nil || vget == nil {
+		r.Und("EFF-readd", "anchor:Engine.VAdd/VGet", "", "anchor lost")
+		return
+	}
+	n := 0
+	for _, fi := range w.ModuleFuncs() {
+		root := w.SSAFunc(fi.Obj)
+		if root == nil || isTestFile(w.Fset, fi.Decl.Pos()) {
+			continue
+		}
+		for _, f := range append([]*ssa.Function{root}, closuresOf(root)...) {
+			adds := findInstrs(f, callsTo(vadd))
+			gets := findInstrs(f, callsTo(vget))
+			if len(adds) == 0 || len(gets) == 0 {
+				continue
+			}
+			for i, a := range adds {
+				ac := a.(*ssa.Call)
+				for _, g := range gets {
+					gc := g.(*ssa.Call)
+					if len(ac.Call.Args) < 3 || len(gc.Call.Args) < 3 || !sameVal(ac.Call.Args[1], gc.Call.Args[1]) || !sameVal(ac.Call.Args[2], gc.Call.Args[2]) {
+						continue
+					}
+					n++
+					aa := a
+					isDel := func(x ssa.Instruction) bool {
+						c, ok := x.(*ssa.Call)
+						return ok && vdel != nil && calleeObj(&c.Call) == vdel
+					}
+					// a path over the failure edge of an update of the same record (VSetMetadata said "not found") is the
+					// legitimate create-if-missing idiom: the record is known NOT to exist there
+					blocked := failureEdges(f, gc)
+					if vset := w.FuncObj("pkg/engine", "Engine.VSetMetadata"); vset != nil {
+						for _, sc := range findInstrs(f, callsTo(vset)) {
+							c := sc.(*ssa.Call)
+							if len(c.Call.Args) >= 3 && sameVal(c.Call.Args[1], ac.Call.Args[1]) && sameVal(c.Call.Args[2], ac.Call.Args[2]) {
+								for e := range failureEdges(f, c) {
+									blocked[e] = true
+								}
+							}
+						}
+					}
+					found, wit := pathQuery{fn: f, target: func(x ssa.Instruction) bool { return x == aa }, avoid: isDel, blocked: blocked}.find(posOf(g))
+					r.Cond(!found, "EFF-readd", fmt.Sprintf("%s:VAdd#%d:not-a-re-add-of-a-fetched-record", shortName(fi.Obj), i+1), w.Pos(a.Pos()), "the id is not one this function has just fetched (or it was deleted in between)", shortName(fi.Obj)+" fetches a record with VGet and then calls VAdd with the same index and id: the add is always rejected as a duplicate, so the operation never works — and because VAdd journals before the index rejects, the rejected record replaces the stored one at the next restart", w.witness(wit)...)
+				}
+			}
+		}
+	}
+	if n == 0 {
+		r.Ok("EFF-readd", "no-fetch-then-add-of-the-same-id", "", "no function adds an id it has just fetched")
 	}
 }
